@@ -8,6 +8,7 @@ import warnings
 from harness import kit, ser
 
 _ENVS = None
+_IMPORTER = None
 
 
 def _envs(extra):
@@ -31,6 +32,7 @@ def drive_case(case, extra):
     except SyntaxError:
         rec["syn"] = True
         rec["ai"] = {"r": "syntax"}
+        rec["ai2"] = {"r": "syntax"}
         rec["py"] = []
         rec["ast"] = []
         return rec
@@ -39,6 +41,10 @@ def drive_case(case, extra):
                         | {"ChainedCompare" for n in ast.walk(tree)
                            if isinstance(n, ast.Compare) and len(n.ops) > 1})
     rec["ai"] = ser.obj_to_json(lambda: ASTToPymbolic()(tree.body))
+    global _IMPORTER
+    if _IMPORTER is None:
+        _IMPORTER = ASTToPymbolic()      # one long-lived instance per worker process
+    rec["ai2"] = ser.obj_to_json(lambda: _IMPORTER(tree.body))
     code = compile(tree, "<c07>", "eval")
     rec["py"] = [ser.call_to_json(lambda: eval(code, {"__builtins__": {}}, dict(env)))  # noqa: S307
                  for env in _envs(extra)]
@@ -137,7 +143,7 @@ def classify(out, verdicts, byid):
         if "oracle" in v:
             out.extra.setdefault("oracle_mismatches", []).append({"text": rec["s"], "what": v["oracle"]})
             continue
-        for side in ("p", "a"):
+        for side in ("p", "a", "a2"):
             vv = v[side]
             if vv["v"] == "OK":
                 continue
@@ -155,7 +161,8 @@ def classify(out, verdicts, byid):
             else:
                 kinds = set(rec["ast"])
                 hit = next((sig for a, sig in known_ast if a in kinds), None)
-                sig = hit or {"clause": "ast-" + vv["v"], "ast_kinds": sorted(kinds),
+                sig = hit or {"clause": ("ast-" if side == "a" else "ast-reused-instance-") + vv["v"],
+                              "ast_kinds": sorted(kinds),
                               "opseq_unlisted": op_sequence(rec["toks"])}
             out.fail(sig, detail)
 
